@@ -233,8 +233,13 @@ InitUpdateKeys(s, g, k1, v, k2, w) ==
        IF r2.out # "ok" THEN Rej(s, r2.out) ELSE r2
 
 \* ---- Value.name -----------------------------------------------------------------------
+\* BadName: a name the value's backing tensor refuses (every second constant of the universe is backed by a proto
+\* tensor, whose name setter takes strings only; the harness passes a non-string): the rename is rejected as a whole
+BadName == "<bad>"
+StrictTensor(s, v) == s.vConst[v] /\ v % 2 = 0
 SetName(s, v, name) ==
-  IF s.vName[v] = name THEN Ok(s)
+  IF name = BadName THEN Rej(s, IF StrictTensor(s, v) THEN "bad-name" ELSE "unmodelled")
+  ELSE IF s.vName[v] = name THEN Ok(s)
   ELSE IF s.vIsInit[v] THEN
     LET g == s.vOwner[v] IN
     IF name = NoName THEN Rej(s, "init-none")
